@@ -70,6 +70,12 @@ BIND(info_fp) {
 }
 BIND(fp_param_set) { fp_param_set((int)A(0)); }
 BIND(fp_prime_set_dense) { fp_prime_set_dense(BN(0)); }
+BIND(fp_prime_set_pmers) {
+	/* sparse form given as signed immediates: a[0..n-1], n = A(last) */
+	int f[12], n = (int)A(c->na - 1);
+	for (int i = 0; i < n && i < 12; i++) f[i] = (int)(int64_t)A(i);
+	fp_prime_set_pmers(f, (size_t)n);
+}
 BIND(fp_param_get) { RET(fp_param_get()); }
 BIND(fp_prime_calc) { fp_prime_calc(); }
 BIND(fp_prime_get) { ret_blob(c, fp_prime_get(), FPB); }
